@@ -15,7 +15,16 @@ import _execlib
 
 def run(ctx):
     _execlib.run_exec(ctx, "C02")
+    # real operators: MatMul with constant weights (chained, inside If branches, shared with a transposed
+    # use), prepacking on/off x optimisation on/off x thread pools, judged against integer products in TLA+
+    t = ctx.path("prepack.ndjson")
+    ncases = 160 if ctx.quick else 4000
+    ctx.harness("vh-graph", ["exec-prepack", "--cases", ncases, "--out", t])
+    res = ctx.tlc_trace("graph/Trace_Prepack", "graph/Trace_Prepack.cfg", t, timeout=3000)
+    ctx.judge(res["bad"], "vh-graph exec-prepack", "graph/Trace_Prepack", "graph/Trace_Prepack.cfg")
+    ctx.cov["prepack_model_runs"] = res["stats"].get("runs", 0)
+    ctx.cov["evaluations"] += res["stats"].get("runs", 0)
     ctx.finish(rule="case = one TLC-generated graph executed 9 times under the strategy matrix; evaluations = runs; distinct_nontrivial = distinct graphs with >= 1 in-place capable operator",
                assumptions=["synthetic mixer operators (harness-defined through the rten::verif hook) stand in for real operators: injective-enough integer mixing, a real in-place path, pool allocation",
-                            "prepacked weights and the order of ready operators are not varied here (the plan is a sequence; C03 checks plans, C16 checks prepacking)"],
+                            "prepacking / subgraph weight caches / thread pools are varied on real MatMul models (integer-valued data); the order of ready operators is not varied (the plan is a sequence; C03 checks plans)"],
                exhaustive=not ctx.quick)
